@@ -38,7 +38,7 @@ import time
 
 import common
 
-NEEDS = {"cmds": ["storedrv"], "specs": ["MultiStore", "Trace_MultiStore"]}
+NEEDS = {"cmds": ["storedrv", "posdrv"], "specs": ["MultiStore", "Trace_MultiStore", "Posmint", "PosmintSim", "Trace_Posmint"]}
 
 STORES = ["s1", "s2"]
 TSTORE = "t1"
@@ -1082,6 +1082,13 @@ def run(prop, tier, seed):
         out.notes["t_trace_s"] = round(time.time() - t0, 1)
         out.cov["traces_validated_against_impl"] += tstats["histories"]
         report(out, prop, tiss, "trace validation of recorded histories")
+        if prop == "C12":
+            # the same property one level up: the whole application (BaseApp + modules over this multistore)
+            # crashed anywhere and reopened - Posmint.tla's Crash action, validated by Trace_Posmint
+            t0 = time.time()
+            from props import posmint
+            posmint.stage_crash(out, prop, tier, seed, d)
+            out.notes["t_app_crash_s"] = round(time.time() - t0, 1)
         if out.notes.get("tool_problems") and not out.violations:
             raise common.ToolError("; ".join(out.notes["tool_problems"][:3]))
         if tiss.rejected and not out.violations:
@@ -1119,6 +1126,9 @@ def replay(prop, path):
                 print("%6d %s" % (i + 1, ls[i][:700]))
             out = common.Outcome(prop, rec.get("tier"), rec.get("seed"))
             iss, _ = validate_lines(out, d, ls, [{"args": args, "first_line": 1, "lines": len(ls), "kr": v.get("kr"), "ke": v.get("ke")}], CODE_DEVS)
+        elif (v.get("replay") or {}).get("driver") == "posdrv":
+            from props import posmint
+            return posmint.replay(prop, path)
         else:
             print(json.dumps(v, indent=1)[:4000])
             return 2
